@@ -311,7 +311,9 @@ def _dfs_iter_tree(
   if isinstance(data, Mapping) and data:
     for k, v in data.items():
       yield from _dfs_iter_tree(v, parent_key_path.at(k))
-  elif isinstance(data, Sequence) and not isinstance(data, str) and data:
+  elif isinstance(data, (list, tuple)) and data:
+    # Only the sequences a key path can index into (see `TreeMapView.__get`),
+    # any other sequence (str, bytes, range, deque, ...) is a leaf.
     for i, v in enumerate(data):
       yield from _dfs_iter_tree(v, parent_key_path.at(Index(i)))
   elif parent_key_path:
